@@ -52,3 +52,29 @@ Theorem C19_cache_monotone : forall hash psl backing ne de V ops s,
   forall idx r, cached_view s idx = Some r -> cached_view (fst (run hash psl backing ne de ops s)) idx = Some r.
 Proof. exact cache_monotone. Qed.
 Print Assumptions C19_cache_monotone.
+
+(* "rules retrieved before the fault are still returned", made precise for the shortcut table:
+   a successful retrieval leaves the rule in the cache ... *)
+Theorem C19_retrieval_materialises : forall backing idx s r,
+  snd (retrieve backing idx s) = Some r -> cached (fst (retrieve backing idx s)) idx r.
+Proof. exact retrieve_caches. Qed.
+Print Assumptions C19_retrieval_materialises.
+(* ... so every (index, rule) the shortcut table returns is cached afterwards ... *)
+Theorem C19_returned_is_materialised : forall hash psl backing ne de V,
+  (forall idx r, V idx = Some r -> backing idx = Some r) -> forall e q s, St backing ne de V s ->
+  AllC backing ne de V (ne_shortcuts e) (fst (match_shortcuts_st hash psl backing e q s))
+       (snd (match_shortcuts_st hash psl backing e q s)).
+Proof. exact shortcuts_materialised. Qed.
+Print Assumptions C19_returned_is_materialised.
+(* ... and the whole chain: returned on readable lists => after any further queries and the fault, every query
+   the rule matches still reports its text *)
+Theorem C19_served_before_served_after : forall hash psl backing ne de rules q1 q2 ops s idx f,
+  (forall f0 i, In (f0, i) rules -> backing i = Some (RNet f0)) -> parsed rules ->
+  St backing ne de backing s -> Forall (fun o => o <> OpClose) ops ->
+  In (idx, f) (snd (match_shortcuts_st hash psl backing (build_net hash rules) q1 s)) ->
+  rmatch psl f q2 = true ->
+  let s1 := fst (match_shortcuts_st hash psl backing (build_net hash rules) q1 s) in
+  let s2 := fst (run hash psl backing ne de ops s1) in
+  exists f', In f' (match_all hash psl (vnet (cached_view s2)) (build_net hash rules) q2) /\ nr_text f' = nr_text f.
+Proof. exact served_before_served_after. Qed.
+Print Assumptions C19_served_before_served_after.
